@@ -1,7 +1,7 @@
 (* C17 - lemmas and proofs: the clumping loop for an arbitrary window predicate, its composition
    with loading and the Pearson test (clumpstr_greedy), the checker's soundness.
    (Exact-LD algebra: C17_ProofsExact.v) *)
-From HV Require Import Prelude PearsonQ C17_Model C17_Check.
+From HV Require Import Prelude PearsonQ Stats C17_Model C17_Check.
 From Coq Require Import QArith.
 Open Scope Z_scope.
 
@@ -350,138 +350,198 @@ Qed.
 
 (* ---- what the boolean checker of the .clump rows means ------------------------------------------ *)
 
-(* the member list [ms] (IDs) of a clump with index iv over the remaining table st *)
-Definition members_spec (wlo whi pb : svar -> svar -> bool) (iv : svar) (st : list svar) (ms : list Z) : Prop :=
-  (forall c, In c st -> wlo iv c = true -> (In (sv_id c) ms <-> pb iv c = true)) /\
-  (forall c, In c st -> In (sv_id c) ms -> (wlo iv c = true \/ whi iv c = true) /\ pb iv c = true) /\
-  (forall x, In x ms -> exists c, In c st /\ sv_id c = x) /\
-  NoDup ms.
+(* the members [ms] (rows) of a clump with index iv over the remaining table st *)
+Definition members_spec (wlo whi pb : svar -> svar -> bool) (iv : svar) (st ms : list svar) : Prop :=
+  incl ms st /\ NoDup (map sv_key ms) /\
+  (forall c, In c st -> wlo iv c = true -> (In c ms <-> pb iv c = true)) /\
+  (forall c, In c ms -> (wlo iv c = true \/ whi iv c = true) /\ pb iv c = true).
 
-Inductive greedy_ids (ei es : svar -> bool) (wlo whi pb : svar -> svar -> bool) : list svar -> list irow -> Prop :=
-| gi_stop st :
+(* greedy clumping stated on rows of the table (two rows with one ID are two variants); the table
+   that remains after a clump is the table without the clump's rows *)
+Inductive greedy_rows (ei es : svar -> bool) (wlo whi pb : svar -> svar -> bool) : list svar -> list clump -> Prop :=
+| gr_stop st :
     (forall v, In v st -> es v = false) ->
-    greedy_ids ei es wlo whi pb st []
-| gi_step st pre iv post ms rest :
+    greedy_rows ei es wlo whi pb st []
+| gr_step st pre iv post ms rest :
     st = pre ++ iv :: post ->
-    (forall v, In v pre -> sv_id v <> sv_id iv) ->
     ei iv = true ->
     (forall v, In v st -> ei v = true -> (sv_p iv <= sv_p v)%Q) ->
     (forall v, In v pre -> ei v = true -> (sv_p iv < sv_p v)%Q) ->
     members_spec wlo whi pb iv st ms ->
-    greedy_ids ei es wlo whi pb (filter (fun v => negb (memZ (sv_id v) (sv_id iv :: ms))) st) rest ->
-    greedy_ids ei es wlo whi pb st ((sv_id iv, ms) :: rest).
+    greedy_rows ei es wlo whi pb (remove_vars (ms ++ [iv]) st) rest ->
+    greedy_rows ei es wlo whi pb st ((iv, ms) :: rest).
 
-(* with a single window predicate the member list is, as a set, the IDs of [members] *)
+(* with a single window predicate the members are exactly the rows of [members] *)
 Lemma members_spec_single win pb iv st ms :
   members_spec win win pb iv st ms ->
-  (forall x, In x ms <-> In x (map sv_id (members win pb iv st))) /\ NoDup ms.
+  (forall c, In c ms <-> In c (members win pb iv st)) /\ NoDup (map sv_key ms).
 Proof.
-  intros (S1 & S2 & S3 & S4). split; [|exact S4]. intro x. split; intro K.
-  - destruct (S3 x K) as (c & Hc & <-). destruct (S2 c Hc K) as [W P].
-    apply in_map. unfold members. apply filter_In. split; [exact Hc|].
+  intros (S1 & S2 & S3 & S4). split; [|exact S2]. intro c. unfold members. rewrite filter_In. split; intro K.
+  - destruct (S4 c K) as [W P]. split; [apply S1; exact K|].
     assert (win iv c = true) as -> by tauto. rewrite P. reflexivity.
-  - apply in_map_iff in K. destruct K as (c & <- & Hc). unfold members in Hc. apply filter_In in Hc.
-    destruct Hc as [Hc E]. apply andb_true_iff in E. destruct E as [W P]. apply (S1 c Hc W). exact P.
+  - destruct K as [Hc E]. apply andb_true_iff in E. destruct E as [W P]. apply (S3 c Hc W). exact P.
 Qed.
 
-Lemma split_at_spec x l pre iv post :
-  split_at x l = Some (pre, iv, post) ->
-  l = pre ++ iv :: post /\ sv_id iv = x /\ forall v, In v pre -> sv_id v <> x.
+Lemma sig_eqb_eq a b : sig_eqb a b = true -> a = b.
 Proof.
-  revert pre. induction l as [|v r IH]; intros pre H; [discriminate|]. cbn [split_at] in H.
-  destruct (sv_id v =? x) eqn:E.
-  - inversion H; subst. apply Z.eqb_eq in E. split; [reflexivity|]. split; [exact E|intros ? []].
-  - destruct (split_at x r) as [[[pre' iv'] post']|]; [|discriminate]. inversion H; subst.
-    destruct (IH pre' eq_refl) as (E1 & E2 & E3). split; [rewrite E1; reflexivity|]. split; [exact E2|].
-    intros w [<-|Hw]; [apply Z.eqb_neq; exact E|apply E3; exact Hw].
+  destruct a as [[i c] p], b as [[i' c'] p']. unfold sig_eqb. rewrite !andb_true_iff, !Z.eqb_eq.
+  intros [[-> ->] ->]. reflexivity.
 Qed.
 
-Lemma memZ_In x l : memZ x l = true <-> In x l.
+Lemma split_key_spec k l pre iv post :
+  split_key k l = Some (pre, iv, post) -> l = pre ++ iv :: post.
 Proof.
-  unfold memZ. rewrite existsb_exists. split.
-  - intros (y & Hy & E). apply Z.eqb_eq in E. subst. exact Hy.
-  - intro H. exists x. split; [exact H|apply Z.eqb_refl].
+  revert pre. induction l as [|v r IH]; intros pre H; [discriminate|]. cbn [split_key] in H.
+  destruct (sv_key v =? k).
+  - inversion H; subst. reflexivity.
+  - destruct (split_key k r) as [[[pre' iv'] post']|]; [|discriminate]. inversion H; subst.
+    rewrite (IH pre' eq_refl). reflexivity.
 Qed.
 
-Lemma nodupb_sound l : nodupb l = true -> NoDup l.
+Lemma take_sig_spec s pool v pool' :
+  take_sig s pool = Some (v, pool') ->
+  sv_sig v = s /\ exists a b, pool = a ++ v :: b /\ pool' = a ++ b.
 Proof.
-  induction l as [|a l IH]; intro H; [constructor|]. cbn in H. apply andb_true_iff in H. destruct H as [H1 H2].
-  constructor; [|apply IH; exact H2]. intro K. apply memZ_In in K. rewrite K in H1. discriminate.
+  revert pool'. induction pool as [|w r IH]; intros pool' H; [discriminate|]. cbn [take_sig] in H.
+  destruct (sig_eqb (sv_sig w) s) eqn:E.
+  - inversion H; subst. split; [apply sig_eqb_eq; exact E|]. exists [], pool'. split; reflexivity.
+  - destruct (take_sig s r) as [[x r']|]; [|discriminate]. inversion H; subst.
+    destruct (IH r' eq_refl) as (E1 & a & b & E2 & E3). split; [exact E1|].
+    exists (w :: a), b. split; [rewrite E2; reflexivity|rewrite E3; reflexivity].
 Qed.
 
-Lemma members_ok_sound pb wlo whi iv st ms :
-  members_ok (fun iv c => Some (pb iv c)) wlo whi iv st ms = true ->
+(* the rows a printed member list is resolved to: they print as that list, are rows of the pool,
+   and no row is taken twice *)
+Lemma resolve_spec : forall ms pool l,
+  resolve ms pool = Some l ->
+  map sv_sig l = ms /\ incl l pool /\ (NoDup (map sv_key pool) -> NoDup (map sv_key l)).
+Proof.
+  induction ms as [|s rest IH]; intros pool l H; cbn [resolve] in H.
+  - inversion H; subst. split; [reflexivity|]. split; [intros ? []|intros _; constructor].
+  - destruct (take_sig s pool) as [[v pool']|] eqn:T; [|discriminate].
+    destruct (resolve rest pool') as [l'|] eqn:R; [|discriminate]. inversion H; subst.
+    destruct (take_sig_spec _ _ _ _ T) as (Es & a & b & Ep & Ep').
+    destruct (IH _ _ R) as (I1 & I2 & I3).
+    assert (incl pool' pool) as Hsub.
+    { subst pool pool'. intros x Hx. apply in_app_or in Hx. apply in_or_app.
+      destruct Hx as [Hx|Hx]; [left; exact Hx|right; right; exact Hx]. }
+    split; [cbn [map]; rewrite Es, I1; reflexivity|]. split.
+    + intros x [<-|Hx]; [subst pool; apply in_or_app; right; left; reflexivity|apply Hsub, I2, Hx].
+    + intro ND. cbn [map]. subst pool pool'. rewrite map_app in ND. cbn [map] in ND.
+      pose proof (NoDup_remove_1 _ _ _ ND) as N1. pose proof (NoDup_remove_2 _ _ _ ND) as N2.
+      rewrite <- map_app in N1, N2. constructor; [|apply I3; exact N1].
+      intro K. apply N2. apply in_map_iff in K. destruct K as (w & Ew & Hw).
+      rewrite <- Ew. apply in_map. apply I2. exact Hw.
+Qed.
+
+(* in a table with distinct load keys, "listed by key" is "listed" *)
+Lemma has_key_in st ms c :
+  NoDup (map sv_key st) -> incl ms st -> In c st -> (has_key (sv_key c) ms = true <-> In c ms).
+Proof.
+  intros ND Hs Hc. rewrite has_key_true, in_map_iff. split.
+  - intros (m & Em & Hm). assert (m = c) as <- by (apply (nodup_map_inj sv_key st); auto). exact Hm.
+  - intro H. exists c. split; [reflexivity|exact H].
+Qed.
+
+Lemma members_ok_sound pass pb wlo whi iv st ms :
+  NoDup (map sv_key st) -> incl ms st -> NoDup (map sv_key ms) ->
+  (forall c, In c st -> pass iv c = Some (pb iv c)) ->
+  members_ok pass wlo whi iv st ms = true ->
   members_spec wlo whi pb iv st ms.
 Proof.
-  unfold members_ok. rewrite !andb_true_iff, !forallb_forall. intros [[H1 H2] H3].
-  split; [|split; [|split]].
-  - intros c Hc W. specialize (H1 c Hc). cbv zeta in H1. rewrite W in H1. apply eqb_prop in H1.
-    rewrite <- memZ_In, H1. tauto.
-  - intros c Hc K. specialize (H1 c Hc). cbv zeta in H1. apply memZ_In in K. rewrite K in H1.
+  intros ND Hs NDm Hp. unfold members_ok. rewrite forallb_forall. intro H1.
+  split; [exact Hs|]. split; [exact NDm|]. split.
+  - intros c Hc W. specialize (H1 c Hc). cbv zeta in H1. rewrite W, (Hp c Hc) in H1. apply eqb_prop in H1.
+    rewrite <- (has_key_in st ms c ND Hs Hc), H1. tauto.
+  - intros c K. pose proof (Hs c K) as Hc. specialize (H1 c Hc). cbv zeta in H1. rewrite (Hp c Hc) in H1.
+    apply (has_key_in st ms c ND Hs Hc) in K. rewrite K in H1.
     destruct (wlo iv c).
     + apply eqb_prop in H1. split; [left; reflexivity|symmetry; exact H1].
     + destruct (whi iv c); [|discriminate]. cbn in H1. split; [right; reflexivity|exact H1].
-  - intros x K. specialize (H2 x K). apply existsb_exists in H2. destruct H2 as (c & Hc & E).
-    apply Z.eqb_eq in E. exists c. tauto.
-  - apply nodupb_sound. exact H3.
 Qed.
 
-Lemma greedy_okb_sound ei es wlo whi pb : forall obs st,
-  greedy_okb ei es wlo whi (fun iv c => Some (pb iv c)) st obs = true -> greedy_ids ei es wlo whi pb st obs.
-Proof.
-  induction obs as [|[i ms] rest IH]; intros st H; cbn [greedy_okb] in H.
-  - apply gi_stop. rewrite forallb_forall in H. intros v Hv. apply negb_true_iff. apply H. exact Hv.
-  - destruct (split_at i st) as [[[pre iv] post]|] eqn:S; [|discriminate].
-    destruct (split_at_spec _ _ _ _ _ S) as (E & Eid & Hfirst). subst i.
-    rewrite !andb_true_iff in H. destruct H as [[[[H1 H2] H3] H4] H5].
-    rewrite forallb_forall in H2, H3. pose proof (members_ok_sound _ _ _ _ _ _ H4) as MS.
-    eapply gi_step; try eassumption.
-    + intros v Hv El. specialize (H2 v Hv). rewrite El in H2. cbn in H2. apply Qle_bool_iff. exact H2.
-    + intros v Hv El. specialize (H3 v Hv). rewrite El in H3. cbn in H3. apply Qlt_bool_iff. exact H3.
-    + apply IH. exact H5.
-Qed.
+Lemma remove_vars_nodup gone st : NoDup (map sv_key st) -> NoDup (map sv_key (remove_vars gone st)).
+Proof. unfold remove_vars. apply nodup_map_filter. Qed.
 
-Lemma bool_eq_iff (a b : bool) : (a = true <-> b = true) -> a = b.
-Proof. destruct a, b; intros [H1 H2]; try reflexivity; [symmetry; apply H1; reflexivity|apply H2; reflexivity]. Qed.
-
-(* the model's own output passes the checker's specification: the two characterisations agree *)
-Lemma greedy_to_ids p1 win pb st cl :
-  NoDup (map sv_key st) -> NoDup (map sv_id st) -> greedy p1 win pb st cl ->
-  greedy_ids (eligible p1) (eligible p1) win win pb st (ids_of cl).
+(* the checker accepts the printed rows only if they are the printed form of a greedy clumping of
+   the table: [cl] resolves every printed variant to a row.  [pass] may be partial (a test the run
+   did not record); here it is total on the table *)
+Lemma greedy_okb_sound_gen ei es wlo whi pass pb : forall obs st,
+  NoDup (map sv_key st) ->
+  (forall iv c, In iv st -> In c st -> pass iv c = Some (pb iv c)) ->
+  greedy_okb ei es wlo whi pass st obs = true ->
+  exists cl, sigs_of cl = obs /\ greedy_rows ei es wlo whi pb st cl.
 Proof.
-  intros NK ND G. induction G as [st H|st pre iv post rest E El Hmin Hpre G IH].
-  - apply gi_stop. exact H.
-  - cbn [ids_of map fst snd]. fold (ids_of rest).
+  induction obs as [|[s mss] rest IH]; intros st ND Hp H; cbn [greedy_okb] in H.
+  - exists []. split; [reflexivity|]. apply gr_stop. rewrite forallb_forall in H. intros v Hv.
+    apply negb_true_iff. apply H. exact Hv.
+  - destruct (pick s None st) as [b|]; [|discriminate].
+    destruct (split_key (sv_key b) st) as [[[pre iv] post]|] eqn:S; [|discriminate].
+    destruct (resolve mss st) as [ms|] eqn:R; [|discriminate].
+    pose proof (split_key_spec _ _ _ _ _ S) as E.
     assert (In iv st) as Hiv by (rewrite E; apply in_or_app; right; left; reflexivity).
-    assert (incl (members win pb iv st) st) as Hms by (intros x Hx; unfold members in Hx; apply filter_In in Hx; tauto).
-    assert (remove_vars (members win pb iv st ++ [iv]) st
-            = filter (fun v => negb (memZ (sv_id v) (sv_id iv :: map sv_id (members win pb iv st)))) st) as ER.
-    { unfold remove_vars. apply filter_ext_in. intros v Hv. f_equal. apply bool_eq_iff.
-      rewrite has_key_true, memZ_In. split; intro K.
-      - apply in_map_iff in K. destruct K as (m & Em & Hm).
-        assert (In m st) as Hm' by (apply in_app_or in Hm; destruct Hm as [Hm|[<-|[]]]; [apply Hms; exact Hm|exact Hiv]).
-        assert (m = v) as -> by (apply (nodup_map_inj sv_key st); assumption).
-        apply in_app_or in Hm. destruct Hm as [Hm|[<-|[]]]; [right; apply in_map; exact Hm|left; reflexivity].
-      - assert (In (sv_id v) (map sv_id (iv :: members win pb iv st))) as K' by exact K.
-        apply in_map_iff in K'. destruct K' as (m & Em & Hm).
-        assert (In m st) as Hm' by (destruct Hm as [<-|Hm]; [exact Hiv|apply Hms; exact Hm]).
-        assert (m = v) as -> by (apply (nodup_map_inj sv_id st); assumption).
-        apply in_map. apply in_or_app. destruct Hm as [<-|Hm]; [right; left; reflexivity|left; exact Hm]. }
-    eapply gi_step; try eassumption.
-    + intros v Hv K. subst st. rewrite map_app in ND. cbn [map] in ND.
-      apply NoDup_remove_2 in ND. apply ND. apply in_or_app. left. rewrite <- K. apply in_map. exact Hv.
-    + split; [|split; [|split]].
-      * intros c Hc W. split; intro K.
-        -- apply in_map_iff in K. destruct K as (m & Em & Hm).
-           assert (m = c) as -> by (apply (nodup_map_inj sv_id st); try assumption; apply Hms; exact Hm).
-           unfold members in Hm. apply filter_In in Hm. destruct Hm as [_ Hm]. apply andb_true_iff in Hm. tauto.
-        -- apply in_map. unfold members. apply filter_In. split; [exact Hc|]. rewrite W, K. reflexivity.
-      * intros c Hc K. apply in_map_iff in K. destruct K as (m & Em & Hm).
-        assert (m = c) as -> by (apply (nodup_map_inj sv_id st); try assumption; apply Hms; exact Hm).
-        unfold members in Hm. apply filter_In in Hm. destruct Hm as [_ Hm]. apply andb_true_iff in Hm. tauto.
-      * intros x K. apply in_map_iff in K. destruct K as (m & Em & Hm). exists m. split; [apply Hms; exact Hm|exact Em].
-      * unfold members. apply nodup_map_filter. exact ND.
-    + rewrite <- ER. apply IH; unfold remove_vars; apply nodup_map_filter; assumption.
+    destruct (resolve_spec _ _ _ R) as (R1 & R2 & R3).
+    rewrite !andb_true_iff in H. destruct H as [[[[[H0 H1] H2] H3] H4] H5].
+    rewrite forallb_forall in H2, H3.
+    pose proof (members_ok_sound _ _ _ _ _ _ _ ND R2 (R3 ND) (fun c Hc => Hp iv c Hiv Hc) H4) as MS.
+    destruct (IH _ (remove_vars_nodup (ms ++ [iv]) st ND)) as (cl & Ecl & G); [|exact H5|].
+    { intros x c Hx Hc. unfold remove_vars in Hx, Hc. apply filter_In in Hx. apply filter_In in Hc.
+      apply Hp; tauto. }
+    exists ((iv, ms) :: cl). split.
+    + cbn [sigs_of map fst snd]. fold (sigs_of cl). rewrite Ecl, R1, (sig_eqb_eq _ _ H0). reflexivity.
+    + eapply gr_step; try eassumption.
+      * intros v Hv El. specialize (H2 v Hv). rewrite El in H2. cbn in H2. apply Qle_bool_iff. exact H2.
+      * intros v Hv El. specialize (H3 v Hv). rewrite El in H3. cbn in H3. apply Qlt_bool_iff. exact H3.
+Qed.
+
+Lemma greedy_okb_sound ei es wlo whi pb obs st :
+  NoDup (map sv_key st) ->
+  greedy_okb ei es wlo whi (fun iv c => Some (pb iv c)) st obs = true ->
+  exists cl, sigs_of cl = obs /\ greedy_rows ei es wlo whi pb st cl.
+Proof. intros ND. apply greedy_okb_sound_gen; [exact ND|reflexivity]. Qed.
+
+(* the model's own output satisfies the checker's specification: the two characterisations agree *)
+Lemma greedy_to_rows p1 win pb st cl :
+  NoDup (map sv_key st) -> greedy p1 win pb st cl ->
+  greedy_rows (eligible p1) (eligible p1) win win pb st cl.
+Proof.
+  intros NK G. induction G as [st H|st pre iv post rest E El Hmin Hpre G IH].
+  - apply gr_stop. exact H.
+  - eapply gr_step; try eassumption.
+    + unfold members. split; [intros x Hx; apply filter_In in Hx; tauto|].
+      split; [apply nodup_map_filter; exact NK|]. split.
+      * intros c Hc W. rewrite filter_In, W. cbn [andb]. tauto.
+      * intros c Hc. apply filter_In in Hc. destruct Hc as [_ Hc]. apply andb_true_iff in Hc. tauto.
+    + apply IH. apply remove_vars_nodup. exact NK.
+Qed.
+
+Lemma greedy_rows_within ei es wlo whi pb st cl :
+  greedy_rows ei es wlo whi pb st cl -> forall c, In c cl -> In (fst c) st /\ incl (snd c) st.
+Proof.
+  induction 1 as [st _|st pre iv post ms rest E El Hmin Hpre MS G IH]; intros c Hc; [contradiction|].
+  destruct Hc as [<-|Hc]; cbn [fst snd].
+  - split; [rewrite E; apply in_or_app; right; left; reflexivity|]. destruct MS as [MS _]. exact MS.
+  - destruct (IH c Hc) as [I1 I2]. unfold remove_vars in I1, I2. split.
+    + apply filter_In in I1. tauto.
+    + intros x Hx. specialize (I2 x Hx). apply filter_In in I2. tauto.
+Qed.
+
+(* no row is in two clumps of a greedy clumping *)
+Lemma greedy_rows_disjoint ei es wlo whi pb st cl :
+  greedy_rows ei es wlo whi pb st cl ->
+  ForallOrdPairs (fun c1 c2 => forall x, In x (clump_keys c1) -> In x (clump_keys c2) -> False) cl.
+Proof.
+  induction 1 as [st _|st pre iv post ms rest E El Hmin Hpre MS G IH]; [constructor|].
+  constructor; [|exact IH].
+  apply Forall_forall. intros c Hc x H1 H2.
+  pose proof (clump_keys_gone _ _ _ H1) as Hg.
+  destruct (greedy_rows_within _ _ _ _ _ _ _ G c Hc) as [I1 I2].
+  assert (exists v, In v (remove_vars (ms ++ [iv]) st) /\ sv_key v = x) as (v & Hv & <-).
+  { unfold clump_keys in H2. destruct H2 as [<-|H2].
+    - exists (fst c). split; [exact I1|reflexivity].
+    - apply in_map_iff in H2. destruct H2 as (v & Ev & Hv). exists v. split; [apply I2; exact Hv|exact Ev]. }
+  unfold remove_vars in Hv. apply filter_In in Hv. destruct Hv as [_ Hv].
+  rewrite Hg in Hv. discriminate.
 Qed.
 
 (* ---- SummaryStats.Load -------------------------------------------------------------------------- *)
@@ -563,7 +623,7 @@ Proof. induction l as [|v r IH]; intro k; [reflexivity|]. cbn. rewrite IH. refle
 
 Lemma clumpstr_terminates win k : clumpstr pearson_oracle win k <> Err E_Timeout.
 Proof.
-  unfold clumpstr.
+  unfold clumpstr, clumpstr_gen.
   destruct (negb (Bool.eqb (is_some (k_rows_snp k)) (is_some (k_snps k)))); [discriminate|].
   destruct (negb (Bool.eqb (is_some (k_rows_str k)) (is_some (k_strs k)))); [discriminate|].
   destruct (k_exact k && is_some (k_rows_str k)); [discriminate|].
@@ -641,7 +701,7 @@ Lemma clumpstr_greedy win k cl :
     greedy (k_p1 k) win (pearson_pb (k_r2 k) gts) stats cl /\
     ForallOrdPairs (fun c1 c2 => forall x, In x (clump_keys c1) -> In x (clump_keys c2) -> False) cl.
 Proof.
-  unfold clumpstr. intro H.
+  unfold clumpstr, clumpstr_gen. intro H.
   destruct (negb (Bool.eqb (is_some (k_rows_snp k)) (is_some (k_snps k)))); [discriminate|].
   destruct (negb (Bool.eqb (is_some (k_rows_str k)) (is_some (k_strs k)))); [discriminate|].
   destruct (k_exact k && is_some (k_rows_str k)); [discriminate|].
@@ -659,6 +719,46 @@ Proof.
   apply Forall_app. split.
   - eapply Forall_impl; [|eapply opt_load_below_p2; exact L1]. cbn. intros v Hv. tauto.
   - eapply Forall_impl; [|eapply opt_load_below_p2; exact L2]. cbn. intros v Hv. tauto.
+Qed.
+
+(* ---- what holds_clump = true says about a .clump file (Pearson) ---------------------------------------- *)
+
+Lemma stats_of_nodup c st : stats_of c = Some st -> NoDup (map sv_key st).
+Proof.
+  unfold stats_of. destruct (opt_load _ _ _ 0 _) as [a|]; [|discriminate].
+  destruct (opt_load _ _ _ 1 _) as [b|]; [|discriminate]. intro H. inversion H. apply rekey_nodup.
+Qed.
+
+(* for a Pearson run on input inside the quantifier (tables load, SNP genotypes complete and
+   biallelic, every loaded variant has exactly one genotype record, kb finite) whatever the IDs:
+   if holds_clump accepts the observed file, the file is the printed form (ID, CHROM, POS of index
+   and members) of a greedy clumping [cl] of the loaded rows with the r2 test "squared dosage
+   correlation over complete samples > clump_r2" and the window as the rational test.
+   (holds_clump k = holds_core (cc_cfg k) (oracle_of k) kq (cc_kbdec k) (cc_obs k) with kq the exact
+   value of the float64 kb; in Pearson mode oracle_of k = pearson_oracle) *)
+Lemma holds_core_sound c kq kbdec st gts obs :
+  Bool.eqb (is_some (k_rows_snp c)) (is_some (k_snps c)) = true ->
+  Bool.eqb (is_some (k_rows_str c)) (is_some (k_strs c)) = true ->
+  is_some (k_snps c) || is_some (k_strs c) = true ->
+  k_exact c = false ->
+  match k_snps c with Some a => existsb snp_calls_bad (gs_vars a) | None => false end = false ->
+  stats_of c = Some st -> merged_gts (k_snps c) (k_strs c) = Ok gts ->
+  (forall v, In v st -> exists g, load_variant gts v = Ok g) ->
+  holds_core c pearson_oracle kq kbdec (Ok obs) = true ->
+  exists cl, sigs_of cl = map row_sigs obs /\
+    greedy_rows (below_p1 (k_p1 c)) (eligible (k_p1 c))
+                (win_q (Qmin_b kq kbdec)) (win_q (Qmax_b kq kbdec))
+                (pearson_pb (k_r2 c) gts) st cl.
+Proof.
+  intros P1 P2 P3 PE PB S M L H. unfold holds_core in H.
+  rewrite P1, P2, P3, PE, PB, S, M in H. cbn [andb negb] in H.
+  assert (forallb (fun v => match load_variant gts v with Ok _ => true | Err _ => false end) st = true) as LA.
+  { apply forallb_forall. intros v Hv. destruct (L v Hv) as [g ->]. reflexivity. }
+  rewrite LA in H. cbn [negb] in H.
+  apply greedy_okb_sound_gen with (pass := passb c pearson_oracle gts); [eapply stats_of_nodup; exact S| |exact H].
+  intros iv x Hiv Hx. unfold passb, pearson_pb.
+  destruct (L iv Hiv) as [gi ->]. destruct (L x Hx) as [gc ->]. unfold pearson_oracle.
+  destruct (pearson_ld gc gi); reflexivity.
 Qed.
 
 (* ---- GetOverlappingSamples: every returned pair of indices names the same sample -------------------- *)
